@@ -233,6 +233,29 @@ func genC09(g *G) {
 			g.emit("bip39.seed", lang, hx([]byte(strings.Join(m[:len(m)-1], " "))), "_", "_")
 		}
 	}
+	// KNOWN FINDING F11: golang.org/x/text's normalizer produces Stream-Safe Text — it inserts U+034F (COMBINING GRAPHEME
+	// JOINER) after 30 consecutive non-starters — so for a passphrase or sentence with more than 30 combining marks in a
+	// row the repository does NOT use the NFKD form. The inputs below are in NFKD already (one base letter followed by
+	// marks in canonical order), so their true NFKD form is the string itself, which is what the model is given.
+	for _, nmarks := range []int{31, 40} {
+		for _, lang := range langs[:1] {
+			setLang(lang)
+			m, _ := bip39.EntropyToMnemonic(make([]byte, 16))
+			p := "e" + strings.Repeat("\u0301", nmarks)
+			g.emit("bip39.seed", lang, hx([]byte(m.String())), hx([]byte(p)), hx([]byte(p)))
+			q := "e" + strings.Repeat("\u0323", 1) + strings.Repeat("\u0301", nmarks-1) // ccc 220 before ccc 230: canonical order
+			g.emit("bip39.seed", lang, hx([]byte(m.String())), hx([]byte(q)), hx([]byte(q)))
+		}
+		s := "abandon" + strings.Repeat("\u0301", nmarks) + " zoo"
+		g.emit("bip39.parse", hx([]byte(s)), hx([]byte(s)))
+	}
+	// 30 marks are fine (no joiner inserted): the boundary belongs to the ordinary stream
+	{
+		setLang("english")
+		m, _ := bip39.EntropyToMnemonic(make([]byte, 16))
+		p := "e" + strings.Repeat("\u0301", 30)
+		g.emit("bip39.seed", "english", hx([]byte(m.String())), hx([]byte(p)), hx([]byte(norm.NFKD.String(p))))
+	}
 	// parser: every IsSpace code point as separator, leading/trailing/multiple, NFC vs NFD words, compatibility forms
 	spaces := []string{" ", "\t", "\n", "\v", "\f", "\r", "\u0085", "\u00a0", "\u1680", "\u2000", "\u2001", "\u2002", "\u2003", "\u2004", "\u2005", "\u2006", "\u2007", "\u2008", "\u2009", "\u200a", "\u2028", "\u2029", "\u202f", "\u205f", "\u3000"}
 	nonspaces := []string{"\u200b", "\u180e", "\u2060", "\ufeff", "\u00ad", "\x1c", "\x1f", "\xc2", "\xe2\x80", "\xe3\x80", "\xe1\x9a", "\xa0", "\x85"}
